@@ -107,7 +107,7 @@ M = [
  ("C06", "union business day needs only one member", "rust/calendars/calendar.rs",
   "        self.calendars.iter().all(|cal| cal.is_weekday(date))", "        self.calendars.iter().any(|cal| cal.is_weekday(date))"),
  ("C07", "tgt: one far-future Good Friday dropped", "rust/calendars/named/tgt.rs",
-  "    \"2150-03-27 00:00:00\",\n", ""),
+  "    \"2150-04-10 00:00:00\",\n", ""),
  ("C07", "nyc: Thanksgiving 2133 shifted by a day", "rust/calendars/named/nyc.rs",
   "    \"2133-11-26 00:00:00\",", "    \"2133-11-27 00:00:00\","),
  ("C07", "all: Sundays excluded", "rust/calendars/named/all.rs",
@@ -115,13 +115,13 @@ M = [
  ("C07", "fed wired back to nyc holidays", "rust/calendars/named/mod.rs",
   "        (\"fed\", fed::HOLIDAYS),", "        (\"fed\", nyc::HOLIDAYS),"),
  ("C07", "syd: Anzac Day 2151 dropped", "rust/calendars/named/syd.rs",
-  "    \"2151-04-26 00:00:00\",\n", ""),
+  "    \"2151-04-25 00:00:00\",\n", ""),
  ("C07", "ldn: an extra holiday added in 2031", "rust/calendars/named/ldn.rs",
   "    \"2031-04-11 00:00:00\",", "    \"2031-04-10 00:00:00\",\n    \"2031-04-11 00:00:00\","),
  ("C08", "month total 13 not wrapped", "rust/calendars/dateroll.rs",
   "        } else if new_month >= 13 {", "        } else if new_month > 13 {"),
  ("C08", "IMM wrong when the month starts on a Saturday", "rust/calendars/dateroll.rs",
-  "            Weekday::Sat => ndt(year, month, 19),", "            Weekday::Sat => ndt(year, month, 20),"),
+  "        Weekday::Sat => ndt(year, month, 19),", "        Weekday::Sat => ndt(year, month, 20),"),
  ("C08", "year roll forgets the sign for negative multiples", "rust/calendars/dateroll.rs",
   "        let mut yr_roll = (months.abs() / 12) * months.signum();", "        let mut yr_roll = months.abs() / 12;"),
  ("C08", "get_eom stops at 30", "rust/calendars/dateroll.rs",
@@ -227,6 +227,22 @@ M = [
  ("C19", "Dual2 % f64 drops second-order terms", "rust/dual/dual_ops/rem.rs",
   "    Dual2 {vars: Arc::clone(&a.vars), real: a.real % b, dual: a.dual.clone(), dual2: a.dual2.clone()}",
   "    Dual2 {vars: Arc::clone(&a.vars), real: a.real % b, dual: a.dual.clone(), dual2: &a.dual2 * 0.0}"),
+
+ ("C08", "add_months ignores the roll day for negative offsets (uses start day)", "rust/calendars/dateroll.rs",
+  "        let roll_ = match roll {\n            RollDay::Unspecified {} => RollDay::Int { day: date.day() },\n            _ => *roll,\n        };",
+  "        let roll_ = match roll {\n            RollDay::Unspecified {} => RollDay::Int { day: date.day() },\n            RollDay::SoM {} if months < -24 => RollDay::Int { day: date.day() },\n            _ => *roll,\n        };"),
+ ("C08", "roll day 31 capped to 30 in every month", "rust/calendars/dateroll.rs",
+  "        RollDay::Int { day: val } => Ok(get_roll_by_day(year, month, *val)),", "        RollDay::Int { day: val } => Ok(get_roll_by_day(year, month, (*val).min(30))),"),
+ ("C01", "Sum of Duals starts from a stray variable-free one for long iterators", "rust/dual/dual_ops/sum.rs",
+  "        iter.fold(Dual::new(0.0, [].to_vec()), |acc, x| acc + x)", "        iter.enumerate().fold(Dual::new(0.0, [].to_vec()), |acc, (i, x)| if i == 4 { acc + x + 1e-9 } else { acc + x })"),
+ ("C01", "Dual inv_norm_cdf derivative uses the argument instead of the result", "rust/dual/dual_ops/math_funcs.rs",
+  "        let scalar = (2.0 * PI).sqrt() * (0.5_f64 * base.pow(2.0_f64)).exp();\n        Dual {", "        let scalar = (2.0 * PI).sqrt() * (0.5_f64 * self.real.pow(2.0_f64)).exp();\n        Dual {"),
+ ("C01", "negation by reference forgets the derivative sign for empty-variable numbers only", "rust/dual/dual_ops/neg.rs",
+  "impl_op!(-|a: &Dual| -> Dual {\n    Dual {\n        vars: Arc::clone(&a.vars),\n        real: -a.real,\n        dual: &a.dual * -1.0,",
+  "impl_op!(-|a: &Dual| -> Dual {\n    Dual {\n        vars: Arc::clone(&a.vars),\n        real: -a.real,\n        dual: if a.dual.len() > 2 { a.dual.clone() } else { &a.dual * -1.0 },"),
+ ("C03", "Subset operands: left operand not re-laid out when lists differ only by extra names at the front", "rust/dual/dual.rs",
+  "            VarsRelationship::Subset => {\n                (self.to_new_vars(other.vars(), Some(state_)), other.clone())\n            }",
+  "            VarsRelationship::Subset => {\n                if self.vars().len() + 3 <= other.vars().len() { return other.to_combined_vars(other); }\n                (self.to_new_vars(other.vars(), Some(state_)), other.clone())\n            }"),
  ("C20", "currency code length counted in characters", "rust/fx/rates/ccy.rs",
   "        if ccy.len() != 3 {", "        if ccy.chars().count() != 3 {"),
  ("C20", "NamedCal JSON panics again (regression of the fix)", "rust/calendars/calendar.rs",
